@@ -764,5 +764,14 @@ def rule_empty_messages(ctx):
     r(ctx, 'C12.m')
 
 
+
+def rule_marker_queues(ctx):
+    """(shared C04.j)  An undecodable message is contained on the message transports too: the marker the parser yields
+    for it is not an exception, so the queue reader that raises exception items does not take it for the end of the
+    connection (rules/msgtransports.py)."""
+    from .msgtransports import rule_marker_queues_read_item_by_item as r
+    r(ctx, 'C04.j')
+
+
 RULES = [('C12.a', rule_a), ('C12.b', rule_b), ('C12.c', rule_c), ('C12.d', rule_d), ('C12.e', rule_e),
-         ('C12.f', rule_f), ('C14.f', rule_g), ('C12.b', rule_h), ('C13.d', rule_i), ('C12.g', rule_j), ('C12.h', rule_k), ('C12.i', rule_l), ('C12.j', rule_m), ('C12.k', rule_exception_text), ('C12.l', rule_error_conversion), ('C02.h', rule_decoder_entry), ('C12.m', rule_empty_messages)]
+         ('C12.f', rule_f), ('C14.f', rule_g), ('C12.b', rule_h), ('C13.d', rule_i), ('C12.g', rule_j), ('C12.h', rule_k), ('C12.i', rule_l), ('C12.j', rule_m), ('C12.k', rule_exception_text), ('C12.l', rule_error_conversion), ('C02.h', rule_decoder_entry), ('C12.m', rule_empty_messages), ('C04.j', rule_marker_queues)]
